@@ -1,7 +1,7 @@
 (* C17 -- Valid parameters always yield a schedule; invalid ones fail before any action
    Property theorems only: each proof is one application of a lemma proved in Proofs/, followed by Print Assumptions. *)
 From Coq Require Import ZArith List Bool.
-From CS Require NAdv AllocProofs InvalidProofs.
+From CS Require NAdv AllocProofs InvalidProofs RevConv RevBridge4 RevolveRun RevBridge6.
 From CS Require Import Actions NAdvance Multistage Exec Sched RunFacts Projections BasicInv MultistageRun AllocTotal TLBridge MixBridge.
 Import ListNotations.
 Open Scope Z_scope.
@@ -16,6 +16,10 @@ Theorem C17_mixed_complete : forall (N s : Z) (sg : storage) (tab : bool) (k : n
   exists o0 m ls, run_case (PMixed N s sg tab) (pmx N (Z.min s (N - 1)) sg) (repeat Next k) = Ok (o0, m, ls) /\ mon_ok m /\ no_raise ls.
 Proof. exact mixed_run. Qed.
 Print Assumptions C17_mixed_complete.
+Theorem C17_revolve_complete : forall (N ram disk uf ub wd rd : Z) (k : nat), 1 <= N -> 0 <= ram -> (2 <= N -> 1 <= ram) ->
+  exists o0 m ls, run_case (PRev RevConv.KRevolve N ram disk uf ub wd rd) (RevBridge4.rev_xparams N ram) (repeat Next k) = Ok (o0, m, ls) /\ mon_ok m /\ no_raise ls.
+Proof. exact RevolveRun.revolve_run. Qed.
+Print Assumptions C17_revolve_complete.
 Theorem C17_twolevel_complete : forall (N P bs : Z) (bst : storage) (tj : traj), 1 <= N -> 1 <= P -> 0 <= bs -> bst = RAM \/ bst = DISK -> forall k : nat,
   exists o0 m ls, run_case (PTwo P bs bst tj) (ptl N P bs bst) (repeat Next (Z.to_nat (TLBridge.Q N P)) ++ [Fin N] ++ repeat Next (S k)) = Ok (o0, m, ls) /\ mon_ok m /\ no_raise ls.
 Proof. exact twolevel_run. Qed.
@@ -138,7 +142,19 @@ Proof. exact (@InvalidProofs.twolevel_rejects). Qed.
 Print Assumptions C17_twolevel_rejects.
 End M_C17_twolevel_rejects.
 
-(* PARTIAL (Revolve family): max_n < 1 or no RAM unit for max_n > 1 is an exception at construction; that valid tuples always yield a complete stream is not proved for the Revolve family (correspondence + oracle) *)
+(* the Revolve op-list generator (table + recursion) never fails on the domain *)
+Module M_C17_revolve_top_total.
+Import RevBridge6.
+Theorem C17_revolve_top_total :
+  forall l cm uf ub : Z,
+         0 <= l ->
+         0 <= cm ->
+         (1 <= l -> 1 <= cm) -> exists ops : list Ops.op, RevSeq.revolve_top l cm uf ub = Actions.Ok ops.
+Proof. exact (@RevBridge6.revolve_top_total). Qed.
+Print Assumptions C17_revolve_top_total.
+End M_C17_revolve_top_total.
+
+(* PARTIAL (Revolve family): max_n < 1 or no RAM unit for max_n > 1 is an exception at construction; that valid tuples always yield a complete stream is proved for Revolve (C17_revolve_complete) but not for DiskRevolve, PeriodicDiskRevolve, HRevolve (correspondence + oracle) *)
 Module M_C17_revolve_family_rejects_partial.
 Import InvalidProofs.
 Theorem C17_revolve_family_rejects_partial :
